@@ -129,15 +129,16 @@ def _extend(pid, extra):
     CLAIMS[pid] = (c[0], c[1] + ' ' + extra, c[2], c[3], c[4])
 
 CLAIMS['C13'] = ('proof',
-    'Kernel contracts over the three places a transaction keeps state, one operation each (that EVERY effect of every statement lives in one of them is not machine-checked): '
+    'Kernel contracts over the places a transaction keeps state, one operation each (that EVERY effect of every statement lives in one of them is not machine-checked): '
     '(a) TransactionManager (unit X-sp, real code): BEGIN snapshots the catalog and every table AS THEY ARE with an empty savepoint stack and change log, a nested BEGIN is refused and changes nothing; '
     'ROLLBACK puts back EXACTLY that catalog and those tables and ends the transaction; COMMIT only ends it. '
     '(b) Database (unit K-undo, real code): BEGIN records the definitions of exactly the user-defined indexes registered at that moment; ROLLBACK, after the snapshot is restored, brings the index registry '
     'back to those definitions (every registered index is one of them, every one of them is registered: indexes created inside the transaction are dropped, dropped ones re-created) and rebuilds the '
     'user-defined indexes of every indexed table from the restored rows; COMMIT touches neither table contents nor the registry. '
     '(c) the constraint hash indexes travel inside the table snapshot (Table is cloned with its IndexManager). '
-    'NOT under contract: spatial indexes, query / plan caches, sequences and other state outside catalog, tables and the B-tree index registry; that Clone of Catalog and HashMap<String, Table> copies everything observable (assumed); '
-    'Operations::record_index_definitions (iterator chain, assumed to list exactly the registry); ROLLBACK TO SAVEPOINT does not restore index definitions (observed, DESIGN 9c).',
+    '(d) Operations::{record_index_definitions, take_index_definitions, forget_index_definitions} (unit X-defs, real code): BEGIN records the registered definitions and keeps the spatial indexes whole, ROLLBACK hands the definitions out once and puts the spatial indexes back exactly as they were at BEGIN (fix d9626b61: they used to be outside the transaction), COMMIT forgets both and changes no index. '
+    'NOT under contract: session variables, query / plan caches and other state outside catalog, tables and the two index registries; that Clone of Catalog, HashMap<String, Table> and the spatial map copies everything observable (assumed); '
+    'the iterator chain that enumerates the registry (assumed to list exactly it); ROLLBACK TO SAVEPOINT does not restore index definitions (observed, DESIGN 9c).',
     _B_NOTE, 'contract-based deductive verification: Verus on mechanically extracted functions (snapshot / restore as exact postconditions; the index registry as a finite map)', 'DESIGN.md 9c/C13')
 
 CLAIMS['C15'] = ('proof',
